@@ -562,6 +562,40 @@ class Ref:
             raise Skip(f"unknown data object {name}")
         return self.dobjs[name]
 
+    def item_reads_as_endmarker(self, params: List[J], values: Any, depth: int = 0) -> bool:
+        """Does some supplied item of a DYNAMIC-ENDMARKER-FIELD among params (searched through
+        structures) start with the field's termination value?  (mechanism attribution only)"""
+        if not isinstance(values, dict) or depth > 4:
+            return False
+        for p in params:
+            o = self.dobjs.get(p.get("dop") or "")
+            v = values.get(p["name"])
+            if o is None or v is None:
+                continue
+            if o["t"] == "STRUCT" and self.item_reads_as_endmarker(o["params"], v, depth + 1):
+                return True
+            if o["t"] == "EMFIELD" and isinstance(v, (list, tuple)):
+                st, td = self.dobj(o["struct"]), self.dobj(o["term_dop"])
+                def debool(x: Any) -> Any:
+                    if isinstance(x, bool):
+                        return int(x)
+                    if isinstance(x, dict):
+                        return {k: debool(y) for k, y in x.items()}
+                    if isinstance(x, (list, tuple)):
+                        return [debool(y) for y in x]
+                    return x
+
+                for item in v:
+                    try:
+                        cx = EncCtx(self, None)
+                        self.enc_dobj(cx, st, debool(item), 0, 0, False)
+                        tv, _ = self.dec_dobj(DecCtx(self, bytes(cx.pdu.buf), None), td, 0, 0, False)
+                        if tv == o["term_value"]:
+                            return True
+                    except Exception:
+                        continue
+        return False
+
     def dtc_codes(self, o: J, depth: int = 0) -> List[int]:
         """trouble codes of a DTC-DOP: its own DTCs plus those of the linked DTC-DOPs that are
         not excluded by short name (own DTCs of the same name override)"""
